@@ -31,7 +31,7 @@ def conflicts(p, paths):
 class Main(P.PorcelainSuite):
     name = "main"
     quick_n = 150
-    thorough_n = 2500
+    thorough_n = 1000
     buckets = [(5, "hard"), (3, "untracked"), (3, "rmcached"), (2, "staged"), (2, "random"), (1, "errors"), (1, "df")]
     weights = {"force": 6, "plain": 2, "ckeep": 1, "hard": 6, "merge": 1, "keep": 1, "mixed": 1, "soft": 1}
 
@@ -62,6 +62,20 @@ class Main(P.PorcelainSuite):
     def check(self, c, k, op, pre, post, g, tc, t, hashes):
         if P.head_commit(post) != tc:
             return "op %d: HEAD resolves to %s, target is %s" % (k, P.head_commit(post), tc)
+        # ... and HEAD has the shape git gives it: on the branch for a checkout by branch name / with create,
+        # detached for a checkout by hash or of a non-branch ref, unchanged in kind for a reset
+        if op["op"] == "checkout":
+            br = op.get("branch") or "refs/heads/master"
+            if op.get("hash", -1) != -1 and not op.get("create"):
+                want = ["det", tc]
+            elif br.startswith("refs/heads/"):
+                want = ["sym", br]
+            else:
+                want = ["det", tc]
+        else:
+            want = ["det", tc] if pre["head"][0] == "det" else pre["head"]
+        if post["head"] != want:
+            return "op %d: HEAD is %s, expected %s" % (k, post["head"], want)
         pidx, pwt = P.fmap(post["index"]), P.fmap(post["wt"])
         if pidx != t:
             return "op %d: index differs from the target tree: %s" % (k, sorted(set(pidx.items()) ^ set(t.items()))[:3])
@@ -74,6 +88,8 @@ class Main(P.PorcelainSuite):
                 continue
             if pwt.get(p) != e:
                 hd = P.tree(c, P.head_commit(pre)) or {}
+                if any(p.startswith(q + "/") and q not in t for q in hd):
+                    return "untracked-lost:under-deleted-head-path op %d: untracked %s was %s, now %s" % (k, p, e, pwt.get(p))
                 return "untracked-lost%s op %d: untracked %s (not in the target) was %s, now %s" % (
                     ":in-head-tree" if p in hd else "", k, p, e, pwt.get(p))
         hd = P.tree(c, P.head_commit(pre)) or {}
@@ -103,6 +119,8 @@ class Main(P.PorcelainSuite):
     def finding_class(self, case, reason, reply):
         if reason.startswith("untracked-lost:in-head-tree"):
             return "hard-reset-deletes-untracked-head-path"
+        if reason.startswith("untracked-lost:under-deleted-head-path"):
+            return "hard-reset-removes-untracked-dir-at-deleted-path"
         if reason.startswith("stale-tracked:staged-new"):
             return "hard-reset-keeps-staged-new-file"
         return None
